@@ -185,6 +185,17 @@ def gen_scenario(rng, cfg):
 
 def gen_multiline(rng):
     """`cicada -c` with one double-quoted word spanning several lines, one substitution per line"""
+    if rng.chance(20):
+        # the substitution itself spans a line break: the pinned tree prints a diagnostic and leaves the text alone;
+        # whatever it does, it has to finish and must not start the inner command more than once (here: not at all,
+        # so any start of `mxi` shows up as a program other than the scheduled one)
+        word = '"[$(pup mxi a\nb)]"'
+        outer = [pup("mo", {"t": "ignorer", "code": 0}, args=[word])]
+        line = {"probe": False, "subs": [{"inner": [], "kind": "opaque", "pre": "[", "post": "]", "text": "$(pup mxi a\nb)"}],
+                "form": "mline", "same_word": True, "dones": 1, "stages": outer,
+                "groups": [{"stages": outer, "capture": False}]}
+        sc = {"prop": "C11", "lines": [line], "externals": [], "faults": {}, "files": {}, "dash_c": True}
+        return plines.LineRunner.rebuild(sc)
     nl = rng.choice([2, 2, 3])
     subs, groups, pieces = [], [], []
     for i in range(nl):
